@@ -19,11 +19,14 @@ structure TSpec where
   phase     : String := ""
   actions   : List (String × Nat) := []
   inject    : Nat := 0
+  group     : Nat := 0
 deriving Inhabited
 
 structure DState where
   tests : Array TSpec := #[]
   ran   : Bool := false
+  cli   : Bool := false                    -- the run goes through CommandLineTestRunner with `-p`
+  nofork : Bool := false                   -- the harness links the build variant without fork/waitpid/kill
 deriving Inhabited
 
 def hexNat? (s : String) : Option Nat :=
@@ -73,6 +76,12 @@ def applyOp (d : DState) (op : List String) : Option DState :=
     match t.toNat?, k.toNat? with
     | some t, some k => if t < d.tests.size then some { d with tests := d.tests.modify t (fun s => { s with inject := k }) } else none
     | _, _ => none
+  | ["grp", t, g] =>
+    match t.toNat?, g.toNat? with
+    | some t, some g => if t < d.tests.size && g < 1000 then some { d with tests := d.tests.modify t (fun s => { s with group := g }) } else none
+    | _, _ => none
+  | ["cli"] => if !d.tests.isEmpty && !d.cli then some { d with cli := true } else none
+  | ["nofork"] => if d.tests.isEmpty then some { d with nofork := true } else none
   | "real" :: t :: ph :: acts =>
     match t.toNat?, parseActions acts with
     | some t, some a =>
@@ -94,6 +103,7 @@ structure TObs where
   consumed : Option Nat := none
   conts    : Option Nat := none
   fails    : List String := []            -- message texts
+  inrunner : Bool := false                -- the test's code ran inside the runner process
 deriving Inhabited
 
 structure RunObs where
@@ -103,6 +113,7 @@ structure RunObs where
   failures : Option Nat := none
   overall  : String := ""
   summary  : String := ""
+  exitcode : Option Nat := none
   deadline : Bool := false
   crash    : Bool := false
   bad      : List String := []
@@ -139,6 +150,8 @@ def readLine (r : RunObs) (l : List String) : RunObs :=
     | some w => r.upd l t (fun o => { o with rwaits := o.rwaits ++ [w], rlines := o.rlines ++ [" ".intercalate l] })
     | none => r.complain l
   | ["starved", t] => r.upd l t (fun o => { o with starved := true })
+  | ["inrunner", t] => r.upd l t (fun o => { o with inrunner := true })
+  | ["exitcode", c] => { r with exitcode := c.toNat? }
   | ["consumed", t, c] =>
     match c.toNat? with
     | some c => r.upd l t (fun o => { o with consumed := some c })
@@ -185,15 +198,57 @@ def modelTestLines (t : Nat) (s : TSpec) (o : TObs) : List String :=
   let fails := r.failures.map (fun f => s!"fail {t} {hexOfString f.text}")
   head ++ env ++ starved ++ counts ++ fails ++ [s!"ended {t}"]
 
+/-- a test the registry does not fork runs inside the runner (never happens with the placement
+    the source has; kept so that the model follows the regenerated placement) -/
+def inRunnerLines (t : Nat) (s : TSpec) : List String :=
+  [s!"started {t}", s!"inrunner {t}"] ++ (if s.real then [] else [s!"consumed {t} 0", s!"conts {t} 0"]) ++ [s!"ended {t}"]
+
+def terminatingSignals : List Nat :=
+  [1, 2, 3, 4, 5, 6, 7, 8, 9, 10, 11, 12, 13, 14, 15, 16, 24, 25, 26, 27, 29, 30, 31]
+
+/-- how many failure texts the child itself prints (ConsoleTestOutput flushes after every print,
+    and the child shares the parent's stdout): one per `fail` action that is reached; a failed
+    check in setup/body/teardown leaves the phase, a plugin's `result.addFailure` does not -/
+def childTexts (phase : String) : List (String × Nat) → Nat
+  | [] => 0
+  | (a, n) :: rest =>
+    if a == "fail" then (if phase == "pre" || phase == "post" then 1 + childTexts phase rest else 1)
+    else if a == "exit" then 0
+    else if a == "signal" && terminatingSignals.contains n then 0
+    else childTexts phase rest
+
+/-- the fork-less build: every test gets the platform's one failure, nothing is forked -/
+def modelRunNoFork (d : DState) : List String :=
+  let n := d.tests.size
+  let scripts : List TestScript := (List.range n).map (fun _ => { forkOk := true, outs := [] })
+  let st := runAllOn .withoutFork scripts
+  let per := st.started.flatMap (fun t =>
+    let s := d.tests[t]!
+    [s!"started {t}"] ++ (if s.real then [] else [s!"consumed {t} 0", s!"conts {t} 0"]) ++
+    ((st.failures.filter (·.1 == t)).map (fun f => s!"fail {t} {hexOfString f.2.text}")) ++ [s!"ended {t}"])
+  per ++ [s!"runcount {st.runCount}", s!"failures {st.failureCount}",
+          "overall " ++ (if st.overallFailure then "fail" else "ok")] ++
+         (if d.cli then [s!"exitcode {st.exitCode}"] else []) ++
+         ["summary " ++ (if st.overallFailure then "errors" else "ok")]
+
 def modelRun (d : DState) (obs : List (List String)) : List String :=
+  if d.nofork then modelRunNoFork d else
   let n := d.tests.size
   let ro := readObs n obs
-  let scripts := (List.range n).map (fun t => scriptOf (d.tests[t]!) (ro.per[t]!))
-  let st := runAll scripts
-  let per := st.started.flatMap (fun t => modelTestLines t (d.tests[t]!) (ro.per[t]!))
+  let regs : List RegTest := (List.range n).map (fun t =>
+    { group := (d.tests[t]!).group, script := scriptOf (d.tests[t]!) (ro.per[t]!) })
+  let st := runRegistry regs
+  let per := st.started.flatMap (fun t =>
+    if st.inRunner.contains t then inRunnerLines t (d.tests[t]!) else modelTestLines t (d.tests[t]!) (ro.per[t]!))
+  let cliLines := if d.cli then [s!"exitcode {st.exitCode}"] else []
+  let texts := if d.cli then
+      (List.range n).filterMap (fun t =>
+        let s := d.tests[t]!
+        if s.real && s.inject == 0 && !s.forkFails then some s!"childtext {t} {childTexts s.phase s.actions}" else none)
+    else []
   per ++ [s!"runcount {st.runCount}", s!"failures {st.failureCount}",
-          "overall " ++ (if st.overallFailure then "fail" else "ok"),
-          "summary " ++ (if st.overallFailure then "errors" else "ok")]
+          "overall " ++ (if st.overallFailure then "fail" else "ok")] ++ cliLines ++
+         ["summary " ++ (if st.overallFailure then "errors" else "ok")] ++ texts
 
 def modelStep (d : DState) (op : List String) (obs : List (List String)) : DState × List String :=
   match op with
@@ -305,8 +360,6 @@ def walkWaits (t : Nat) (outs : List WaitOutcome) (c : Nat) : Except String Walk
     i := i + 1
   return w
 
-def terminatingSignals : List Nat :=
-  [1, 2, 3, 4, 5, 6, 7, 8, 9, 10, 11, 12, 13, 14, 15, 16, 24, 25, 26, 27, 29, 30, 31]
 def ignoredSignals : List Nat := [17, 18, 23, 28]
 def ttyStopSignals : List Nat := [20, 21, 22]       -- discarded instead of stopping in an orphaned process group
 
@@ -327,6 +380,7 @@ def realExpected (phase : String) : List (String × Nat) → Bool → List Exp
 
 def specTest (t : Nat) (s : TSpec) (o : TObs) : Except String Unit := do
   if !o.started then throw s!"test {t} was not run (a later test did not run after an earlier one died)"
+  if o.inrunner then throw s!"test {t} was executed inside the runner process although separate-process mode was requested (not forked)"
   if !o.ended then throw s!"test {t} was started but the parent never finished it"
   if o.forked.length != 1 then throw s!"test {t}: fork called {o.forked.length} times"
   if s.forkFails then
@@ -362,12 +416,33 @@ def specTest (t : Nat) (s : TSpec) (o : TObs) : Except String Unit := do
       let nstopFail := (o.fails.filter (OClass.stopped.matchesText ·)).length
       if nstop != nstopFail then throw s!"test {t}: {nstop} stops reported by waitpid but {nstopFail} stop failures recorded"
 
+/-- build without fork: `-p` must be reported as not working, once per test, and every test is
+    still started; nothing may be forked -/
+def specRunNoFork (d : DState) (ro : RunObs) : Except String Unit := do
+  let n := d.tests.size
+  if ro.order != List.range n then throw s!"tests started {ro.order}, expected all of 0..{n - 1} in order"
+  for t in List.range n do
+    let o := ro.per[t]!
+    if !o.forked.isEmpty then throw s!"test {t}: fork called on a platform without fork"
+    if o.inrunner then throw s!"test {t} was executed inside the runner process"
+    match o.fails with
+    | [m] => if !(contains m "doesn't work on this platform") then throw s!"test {t}: unexpected failure {m}"
+    | fs => throw s!"test {t}: expected exactly one 'no fork on this platform' failure, got {fs}"
+  if ro.runcount != some n || ro.failures != some n then throw s!"run count {ro.runcount} / failures {ro.failures} for {n} tests"
+  if ro.overall != "fail" || ro.summary != "errors" then throw s!"overall result {ro.overall}/{ro.summary}"
+
 def specRun (d : DState) (obs : List (List String)) : Except String Unit := do
   let n := d.tests.size
   let ro := readObs n obs
   if ro.crash then throw "the implementation crashed or hung"
   if ro.deadline then throw "the parent did not finish within the deadline (hanging wait)"
   if !ro.bad.isEmpty then throw s!"unexpected observation: {ro.bad.head!}"
+  if d.nofork then
+    specRunNoFork d ro
+    return
+  for t in List.range n do
+    if (ro.per[t]!).inrunner then
+      throw s!"test {t} was executed inside the runner process although separate-process mode was requested (not forked)"
   if ro.order != List.range n then throw s!"tests started {ro.order}, expected all of 0..{n - 1} in order (later tests must still run)"
   for t in List.range n do
     specTest t (d.tests[t]!) (ro.per[t]!)
@@ -378,12 +453,21 @@ def specRun (d : DState) (obs : List (List String)) : Except String Unit := do
     throw s!"{total} failures but the overall result is {ro.overall}/{ro.summary}"
   if total == 0 && (ro.overall != "ok" || ro.summary != "ok") then
     throw s!"no failure but the overall result is {ro.overall}/{ro.summary}"
+  if d.cli then
+    match ro.exitcode with
+    | none => throw "the command-line runner returned no exit code"
+    | some c =>
+      if total > 0 && c == 0 then throw s!"{total} failures but the runner's exit code is 0"
+      if total == 0 && c != 0 then throw s!"no failure but the runner's exit code is {c}"
 
 def specAll (ops : List Proto.Op) : Option String :=
   let rec go (d : DState) : List Proto.Op → Option String
     | [] => none
     | o :: rest =>
-      if o.obs.any (fun l => l.head? == some "crash") then some "the implementation crashed or hung" else
+      if o.obs.any (fun l => l.head? == some "crash") then
+        (match o.obs.find? (fun l => l.head? == some "inrunner") with
+         | some l => some s!"test {" ".intercalate (l.drop 1)} was executed inside the runner process although separate-process mode was requested, and the runner itself died"
+         | none => some "the implementation crashed or hung") else
       match o.op with
       | ["run"] =>
         if d.ran || d.tests.isEmpty then go d rest else
